@@ -40,6 +40,14 @@ def crafted_strings(r, tier):
         out += [a + b, 'x' + a + b, a + b + 'x', a + 'x' + b]
     out += ["'+__import__('os').system('echo pwned')+'", '"+__import__("os").system("echo pwned")+"', "\\'+exec('1')+\\'", "''' + open('/etc/passwd').read() + '''",
             '""" + __import__("os").getcwd() + """', '\\', '\\\\\'', "\\N{BULLET}", '{__import__("os")}', "'''", '"""', "\\'''", 'a' * 300 + "'"]
+    # escape-then-quote and quote-then-code shapes, for both quote characters, with a trailing comment
+    for q in ("'", '"'):
+        for pre in ('\\', 'a\\', '\\\\', ''):
+            for tail in ('+str(1)#', '+__import__("os").getcwd()#', "+str(open('m','w').close())#", ')+(1', '+str(1)+' + q):
+                out.append(pre + q + tail)
+                out.append('x' + pre + q + tail + q)
+        out.append(q * 3 + '+str(1)+' + q * 3)
+        out.append(q * 3 + '+str(open("m","w").close())+' + q * 3 + ' {value}')
     n = 60 if tier == 'quick' else 2000
     for _ in range(n):
         out.append(''.join(r.choice(ALPHABET) for _ in range(r.randint(1, 9))))
@@ -50,7 +58,7 @@ def programs(r, tier):
     progs = []
     strs = crafted_strings(r, tier)
     if tier == 'quick':
-        strs = strs[:2] + [s for i, s in enumerate(strs[2:]) if i % 4 == 0]
+        strs = strs[:2] + [s for i, s in enumerate(strs[2:]) if i % 4 == 0 or '#' in s or '+str' in s]
     for s in strs:
         if '\ud800' in s:
             lit = "'" + ''.join('\\ud800' if c == '\ud800' else ('\\x%02x' % ord(c) if c in "'\\\n\r\0" else c) for c in s) + "'"
